@@ -793,6 +793,7 @@ Lemma ev_enter_closure : forall S f c fid slot0 vs st,
   match nth_error (closures st) fid with
   | None => (st, RStuck "dangling closure")
   | Some cl =>
+    if Nat.eqb (c_depth c) frames_max then (st, RErr IndexError "Stack overflow.") else
     let '(st1, slot0') :=
       match cl_kind cl with
       | KInit => let '(w, v) := construct (world_of st) slot0 in (set_heap st (w_heap w), v)
@@ -804,7 +805,7 @@ Lemma ev_enter_closure : forall S f c fid slot0 vs st,
       | None => (st1, cl_env cl)
       end in
     let '(st3, rho) := bind_params st2 rho0 (cl_params cl) vs in
-    let c' := mkCtx rho true (cl_super cl) (cl_owner cl) slot0' in
+    let c' := mkCtx rho true (cl_super cl) (cl_owner cl) slot0' (Datatypes.S (c_depth c)) in
     match ev S f c' (TS (cl_body cl)) st3 with
     | (st4, RNext _) => (st4, RVal (match cl_kind cl with KInit => slot0' | _ => VNil end))
     | (st4, RRet v) => (st4, RVal (match cl_kind cl with KInit => slot0' | _ => v end))
@@ -827,6 +828,7 @@ Theorem constructor_returns_instance : forall S f c fid slot0 vs st cl st' v,
   (forall a, slot0 = VInst a -> v = VInst a).
 Proof.
   intros S f c fid slot0 vs st cl st' v Hcl Hk H. rewrite ev_enter_closure in H. rewrite Hcl, Hk in H.
+  destruct (Nat.eqb (c_depth c) frames_max); [discriminate|].
   destruct (construct (world_of st) slot0) as [w v0] eqn:Ec. simpl in H.
   destruct (bind_params _ _ _ _) as [st3 rho] in H.
   assert (Hv : v = v0).
@@ -843,11 +845,13 @@ Qed.
    inherited one only where the body says `super.new(..)`; see the examples below.) *)
 Theorem no_implicit_super_init : forall S f c fid k st cl,
   nth_error (closures st) fid = Some cl -> cl_kind cl = KInit -> cl_params cl = [] -> cl_body cl = [] ->
+  c_depth c <> frames_max ->
   exists st', ev S (Datatypes.S (Datatypes.S f)) c (TEnter (TClosure fid (VClass k)) []) st = (st', RVal (VInst (List.length (heap st)))) /\
     heap st' = (heap st ++ [mkInst k []])%list /\ out st' = out st /\ trace st' = trace st /\
     globals st' = globals st /\ hist st' = hist st /\ mstore st' = mstore st.
 Proof.
-  intros S f c fid k st cl Hcl Hk Hp Hb. rewrite ev_enter_closure. rewrite Hcl, Hk, Hp, Hb. simpl.
+  intros S f c fid k st cl Hcl Hk Hp Hb Hd. rewrite ev_enter_closure. rewrite Hcl, Hk, Hp, Hb.
+  destruct (Nat.eqb_spec (c_depth c) frames_max); [contradiction|]. simpl.
   eexists. split; [reflexivity|]. simpl. repeat split; reflexivity.
 Qed.
 
@@ -1047,7 +1051,7 @@ Proof.
     + split; auto. right. exists d. split; [simpl; rewrite Hh5, Hh4; reflexivity|exact Hcl6].
     + split; auto. right. exists d. split; [simpl; rewrite Hh5, Hh4; reflexivity|exact Hcl6]. }
   destruct sup as [sn|].
-  - destruct (lookup_var (mkCtx rho (c_local c) (c_super c) (c_owner c) (c_slot0 c)) st2 sn) as [v|e m|w] eqn:El;
+  - destruct (lookup_var (mkCtx rho (c_local c) (c_super c) (c_owner c) (c_slot0 c) (c_depth c)) st2 sn) as [v|e m|w] eqn:El;
       simpl in H; try (inversion H; subst; split; [exact HI2|left; simpl; auto]).
     destruct v as [| | | | s | | | |];
       try (simpl in H; inversion H; subst; split; [exact HI2|left; simpl; auto]).
